@@ -503,6 +503,29 @@ class LoopGen:
 
 # ------------------------------------------------------------------------------------------------------------
 
+ENTRY = {
+    "dirs": ["let mut first_ix = contour.first(); let mut ix = first_ix; let mut prev_ix = contour.prev(first_ix);",
+             "first_ix = ix;", "let mut next_ix = first_ix; let mut ix = first_ix;"],
+    "dirsBack": ["let mut first_ix = contour.first(); let mut ix = first_ix; let mut prev_ix = contour.prev(first_ix); "
+                 "let mut point = points[first_ix]; while prev_ix != first_ix {"],
+    "segStart": ["let mut point_ix = contour.first(); let mut last_ix = contour.prev(point_ix);",
+                 "last_ix = point_ix; loop { point_ix = contour.prev(point_ix);"],
+    "segMain": ["last_ix = point_ix; let mut on_edge = false; let mut passed = false; loop {"],
+    "edgePts": ["let mut point_ix = segment.first(); let last_ix = segment.last(); loop {"],
+    "weak": ["let last_ix = points.len() - 1; let mut point_ix = first_touched_ix; let mut last_touched_ix; 'outer: loop {"],
+}
+
+
+def check_entry(src, spec):
+    """the statements that produce the entry state the `…_from_entry` theorems of Props/C02Autohint.lean start from"""
+    m = re.search(r"\bfn\s+" + spec["func"] + r"\s*\(", src)
+    fb = src.index("{", m.end())
+    flat = " ".join(src[fb:B.match_brace(src, fb) + 1].split())
+    for t in ENTRY.get(spec["id"], []):
+        if t not in flat:
+            raise Unsupported(f"entry state of {spec['step']}: fn {spec['func']} no longer reads `{t[:100]}`")
+
+
 def locate(src, spec):
     m = re.search(r"\bfn\s+" + spec["func"] + r"\s*\(", src)
     if not m:
@@ -531,7 +554,9 @@ RING_SITES = {
         "pub fn append_segment_to_edge(&mut self, segment_ix: usize, edge_ix: usize) { let edge = &mut self.edges[edge_ix]; "
         "let first_ix = edge.first_ix; let last_ix = edge.last_ix; edge.last_ix = segment_ix as u16; "
         "let segment = &mut self.segments[segment_ix]; segment.edge_next_ix = Some(first_ix); "
-        "self.segments[last_ix as usize].edge_next_ix = Some(segment_ix as u16); }"],
+        "self.segments[last_ix as usize].edge_next_ix = Some(segment_ix as u16); }",
+        "pub fn next_in_edge<'a>(&self, segments: &'a [Segment]) -> Option<&'a Segment> { "
+        "segments.get(self.edge_next_ix.map(|ix| ix as usize)?) }"],
     AH + "topo/edges.rs": [
         "first_ix: segment_ix as u16, last_ix: segment_ix as u16, ..Default::default() }; "
         "axis.insert_edge(edge, top_to_bottom_hinting); axis.segments[segment_ix].edge_next_ix = Some(segment_ix as u16);",
@@ -541,6 +566,12 @@ RING_SITES = {
         "if segment_ix == last_segment_ix { break; } segment_ix = next_segment_ix .map(|ix| ix as usize) "
         ".unwrap_or(last_segment_ix); }",
         "let next_segment_ix = segment.edge_next_ix;",
+        # the CJK link walk that `walkCjk` transcribes, with its entry
+        "let first_ix = edge.first_ix as usize; let mut seg1 = &axis.segments[first_ix]; let mut dist2 = 0; "
+        "loop { if let Some(link1) = seg1.link(&axis.segments).copied() { "
+        "dist2 = (link.pos as i32 - link1.pos as i32).abs(); if dist2 >= edge_distance_threshold { break; } } "
+        "if seg1.edge_next_ix == Some(first_ix as u16) { break; } "
+        "if let Some(next) = seg1.next_in_edge(&axis.segments) { seg1 = next; } else { break; } }",
     ],
 }
 
@@ -566,6 +597,7 @@ def generate(read):
     for spec in LOOPS:
         src = B.strip_comments(read(spec["file"]))
         b, e = locate(src, spec)
+        check_entry(src, spec)
         line0 = src.count("\n", 0, b) + 1
         p = Parser(src[b:e + 1], line0)
         body = p.block()
